@@ -10,4 +10,13 @@ def write_delimited(frame: jelly.RdfStreamFrame, output_stream: IO[bytes]) -> No
 
 
 def write_single(frame: jelly.RdfStreamFrame, output_stream: IO[bytes]) -> None:
-    output_stream.write(frame.SerializeToString(deterministic=True))
+    data = frame.SerializeToString(deterministic=True)
+    written = output_stream.write(data)
+    # A raw (unbuffered) stream may take only part of the data and say so in its
+    # return value; the delimited writer refuses to go on in that case, do the same.
+    if written is not None and written != len(data):
+        msg = (
+            f"failed to write complete frame (wrote: {written}, "
+            f"expected: {len(data)}); is the output stream non-blocking or unbuffered?"
+        )
+        raise OSError(msg)
